@@ -336,6 +336,52 @@ def x_tfr_fault(ctx, case):
     return True
 
 
+def x_tfr_pair(ctx, case):
+    """Two (or three) forwarders sharing one target (ConcurrentTestSuite's set-up), each with run-level tags of its
+    own, reporting complete tests one after the other in any order - ordinary tests, and the addSkip()+stopTest()
+    pair without startTest() that unittest's runner of 3.12.1 emits for a skipped stdlib test: what the target
+    observes with each outcome is what the REPORTING forwarder had current then, nothing of the others', and
+    nothing is left set at the target afterwards."""
+    import testtools
+    from .. import histories as H
+    log = recorders.Log()
+    target = H.make_leaf(case.get("leaf", "real"), log)
+    sem = threading.Semaphore(1)
+    fwd = [testtools.ThreadsafeForwardingResult(target, sem) for _ in case["run_tags"]]
+    target.startTestRun()
+    run = [set() for _ in fwd]
+    want = []
+    for step in case["steps"]:
+        w = step["w"]
+        if step["k"] == "run_tags":
+            fwd[w].tags(set(step["new"]), set(step["gone"]))
+            run[w] = (run[w] | set(step["new"])) - set(step["gone"])
+            continue
+        t = testtools.PlaceHolder(step["id"])
+        cur = set(run[w])
+        if step["k"] == "test":
+            fwd[w].startTest(t)
+            if step.get("local"):
+                fwd[w].tags(set(step["local"]), set())
+                cur |= set(step["local"])
+            getattr(fwd[w], step["outcome"])(t)
+        else:       # "skip_nostart"
+            fwd[w].addSkip(t, "skipped by the stdlib runner")
+        fwd[w].stopTest(t)
+        want.append((step["id"], frozenset(cur)))
+    seen = [(e.test, frozenset(e.payload["tags"])) for e in log.events if e.name in recorders.OUTCOMES]
+    try:
+        left = set(target.current_tags)
+    except Exception as e:  # noqa
+        left = repr(e)
+    ctx.check(seen == want, "leaf-observes-reporter-tags-at-outcome",
+              lambda: {"the target observed": [(i, sorted(t)) for i, t in seen],
+                       "the reporting forwarders had": [(i, sorted(t)) for i, t in want], "case": case})
+    ctx.check(left == set(), "leaf-observes-reporter-tags-at-outcome",
+              lambda: {"left set at the target after the last test": left if isinstance(left, str) else sorted(left), "case": case})
+    return len(fwd) > 1
+
+
 def x_raw_stream(ctx, case):
     """A reporter that speaks the stream protocol itself and tags EVERY event of a test with the tags current at
     that moment (what subunit streams look like): a consumer - StreamToDict, StreamToExtendedDecorator - observes
@@ -372,7 +418,7 @@ def x_raw_stream(ctx, case):
     return any(set(t["start"]) != set(t["end"]) for t in case["tests"])
 
 
-SUBCHECKS = {"hist": x_hist, "tfr_fault": x_tfr_fault, "raw_stream": x_raw_stream}
+SUBCHECKS = {"hist": x_hist, "tfr_fault": x_tfr_fault, "tfr_pair": x_tfr_pair, "raw_stream": x_raw_stream}
 
 ALPHABET = [["tags", ["a"], []], ["tags", ["b"], ["a"]], ["tags", [], ["b"]], ["startTest"], ["outcome", "addSuccess"],
             ["outcome", "addError"], ["stopTest"], ["skip_nostart"], ["startTestRun"], ["placeholder", ["p"], "addSuccess"]]
@@ -461,6 +507,31 @@ def run(ctx):
                     ctx.execute("tfr_fault", {"raise_in": raise_in, "w1_run_tags": run_tags, "local": local})
     ctx.note_space("two ThreadsafeForwardingResults over one TestResult whose outcome method raises once: 6 methods x "
                    "run-level tags on/off x 2 local tag sets", n)
+    n = 0
+    for i in range(ctx.scale(1500, 60000)):
+        nf = rng.choice([2, 2, 3])
+        case = {"run_tags": [rng.sample(["w%d" % k, "shared"], rng.randint(0, 2)) for k in range(nf)], "steps": [],
+                "leaf": rng.choice(["real", "real", "ext"])}
+        for k, tg in enumerate(case["run_tags"]):
+            if tg:
+                case["steps"].append({"k": "run_tags", "w": k, "new": tg, "gone": []})
+        for j in range(rng.randint(2, 7)):
+            w = rng.randrange(nf)
+            r = rng.random()
+            if r < 0.3:
+                case["steps"].append({"k": "skip_nostart", "w": w, "id": "t%d" % j})
+            elif r < 0.4:
+                case["steps"].append({"k": "run_tags", "w": w, "new": ["late%d" % j], "gone": rng.sample(["shared", "w%d" % w], 1)})
+            else:
+                st = {"k": "test", "w": w, "id": "t%d" % j,
+                      "outcome": rng.choice(["addSuccess", "addSuccess", "addUnexpectedSuccess"])}
+                if rng.random() < 0.4:
+                    st["local"] = ["loc%d" % j]
+                case["steps"].append(st)
+        n += 1
+        ctx.execute("tfr_pair", case)
+    ctx.note_space("2-3 forwarders over one target: random sequences of 2..7 complete tests / startTest-less skips / "
+                   "run-level tag changes (random)", n, False)
     maxlen = 5 if ctx.quick else 6
     seqs = legal_sequences(maxlen)
     n = 0
